@@ -167,6 +167,12 @@ func (m *uiModel) toggleCurrent() bool {
 func (m *uiModel) apply(action string) bool {
 	// "a+b" in a binding is a chain of actions (so `toggle+down` is toggle, then down – it moves even
 	// when the toggle is refused; the atomic variants are toggle-down / toggle-up)
+	if action == c09HiddenCancel {
+		m.insert([]rune("z"))
+		m.yank = append([]rune{}, m.query...)
+		m.cx = len(m.query)
+		return true
+	}
 	depth := 0
 	for i := 0; i < len(action); i++ {
 		switch action[i] {
@@ -390,7 +396,12 @@ var c09Actions = []string{
 	"select", "deselect", "toggle", "toggle+down", "toggle+up", "toggle-down", "toggle-up", "toggle-in", "toggle-out", "select-all", "deselect-all",
 	"toggle-all", "clear-selection", "change-multi(2)", "change-multi", "change-multi(0)",
 	"jump", "put(" + c09LongText + ")", "replace-query", "next-selected", "prev-selected", "offset-up", "offset-down",
+	c09HiddenCancel,
 }
+
+// cancel while the input section is hidden: the query stays (every change is discarded while it is hidden) and
+// becomes the text that yank inserts; hiding the section leaves the cursor at the end of the query
+const c09HiddenCancel = "put(z)+hide-input+cancel+show-input"
 
 // longer than the 1000 runes a query may hold
 var c09LongText = strings.Repeat("ab cd ", 170)
@@ -520,8 +531,12 @@ func genC09Plan(r *zsim.Rng) *sysPlan {
 	type kb struct{ key, action string }
 	var bound []kb
 	for i := 0; i < nb; i++ {
-		bound = append(bound, kb{c09Keys[i], c09Actions[perm[i]]})
-		p.Args = append(p.Args, "--bind", c09Keys[i]+":"+c09Actions[perm[i]])
+		a := c09Actions[perm[i]]
+		if a == c09HiddenCancel && hasArg(p.Args, "--no-input") {
+			a = "yank" // show-input would end --no-input for the rest of the session
+		}
+		bound = append(bound, kb{c09Keys[i], a})
+		p.Args = append(p.Args, "--bind", c09Keys[i]+":"+a)
 	}
 	// two more ways to close the session
 	p.Args = append(p.Args, "--bind", "f5:accept-or-print-query", "--bind", "f6:accept-non-empty")
@@ -565,6 +580,20 @@ func genC09Plan(r *zsim.Rng) *sysPlan {
 			ch := pick(r, "a", "s", "d", "f")
 			p.Events = append(p.Events, sysEvent{Kind: "keys", Keys: ch, Tag: "char:" + ch}, sysEvent{Kind: "settle"})
 		}
+	}
+	if !hasArg(p.Args, "--no-input") && r.Chance(1, 8) {
+		// cancel while the input section is hidden makes the query the yank text; then the query is edited in
+		// place and the text is yanked back
+		p.Args = append(p.Args, "--bind", "f7:"+c09HiddenCancel, "--bind", "f8:beginning-of-line", "--bind", "f9:delete-char", "--bind", "f10:yank", "--bind", "f11:backward-delete-char")
+		p.Events = append(p.Events, sysEvent{Kind: "keys", Keys: pick(r, "a", "b", "c"), Tag: ""})
+		p.Events[len(p.Events)-1].Tag = "char:" + p.Events[len(p.Events)-1].Keys
+		p.Events = append(p.Events, sysEvent{Kind: "keys", Keys: "f7", Tag: c09HiddenCancel})
+		if r.Bool() {
+			p.Events = append(p.Events, sysEvent{Kind: "keys", Keys: "f8", Tag: "beginning-of-line"}, sysEvent{Kind: "keys", Keys: "f9", Tag: "delete-char"})
+		} else {
+			p.Events = append(p.Events, sysEvent{Kind: "keys", Keys: "f11", Tag: "backward-delete-char"})
+		}
+		p.Events = append(p.Events, sysEvent{Kind: "keys", Keys: "f10", Tag: "yank"}, sysEvent{Kind: "settle"})
 	}
 	nev := r.Range(1, 60)
 	settleEach := !r.Chance(1, 4)
